@@ -844,9 +844,24 @@ func (k *kvInvoiceUpdater) UpdateAmpState(setID [32]byte,
 			maps.Copy(k.updatedAmpHtlcs[setID], cancelledHtlcs)
 
 		case invpkg.HtlcStateSettled:
-			k.updatedAmpHtlcs[setID] = make(
-				map[models.CircuitKey]*invpkg.InvoiceHTLC,
+			// The HTLCs of a set are stored as one value, so we
+			// must carry over whatever was already recorded for
+			// this set ID (it may have been settled or canceled
+			// before and is now paid again), otherwise those
+			// HTLCs are dropped from the invoice.
+			k.updatedAmpHtlcs[setID] = k.invoice.HTLCSet(
+				&setID, invpkg.HtlcStateSettled,
 			)
+
+			cancelledHtlcs := k.invoice.HTLCSet(
+				&setID, invpkg.HtlcStateCanceled,
+			)
+			maps.Copy(k.updatedAmpHtlcs[setID], cancelledHtlcs)
+
+			acceptedHtlcs := k.invoice.HTLCSet(
+				&setID, invpkg.HtlcStateAccepted,
+			)
+			maps.Copy(k.updatedAmpHtlcs[setID], acceptedHtlcs)
 		}
 	}
 
